@@ -307,7 +307,10 @@ func c27Closed(built *rbBuilt, disk []rbDiskSession, srv *Server, tol time.Durat
 				}
 			}
 			if !sg.Info.HasMtxi || sg.Info.MtxiSegNumber != uint64(gi) {
-				return fmt.Errorf("session %d segment %d: mtxi box missing or segment number %d", si, gi, sg.Info.MtxiSegNumber)
+				// how consecutive segments are marked is private to recorder and playback: the statement only
+				// says that they are RECOGNIZED as continuous, which the /list request below decides
+				kit.R("TestVerifC27Crash").Note(fmt.Sprintf("informative: a closed segment without the mtxi box / with an unexpected "+
+					"segment number (has=%v number=%d index=%d); continuity is judged by /list", sg.Info.HasMtxi, sg.Info.MtxiSegNumber, gi))
 			}
 		}
 	}
@@ -417,6 +420,8 @@ func TestVerifC27Crash(t *testing.T) {
 		})
 	}
 
+	rbCalibrate(t)
+
 	rapid.Check(t, func(t *rapid.T) {
 		spec := rbGenSpec(t, rbGenOpts{MinSessions: 1, MaxSessions: 2, MinSegs: 2, MaxSegs: 3, Ragged: true, SmallPayloads: true})
 
@@ -428,11 +433,10 @@ func TestVerifC27Crash(t *testing.T) {
 
 		built, err := rbBuild(dir, spec)
 		if err != nil {
-			if strings.Contains(err.Error(), errRBTimeout.Error()) {
-				fmt.Println("VERIF-INCONCLUSIVE: " + err.Error())
-			}
-			t.Fatalf("recording builder: %v\nspec: %s", err, spec)
+			// the builder could not drive the recorder to the end of the session: says nothing about C27
+			rbInconclusive(t, "%v\nspec: %s", err, spec)
 		}
+		rbNoteLog(rec.Note, built)
 		disk, problems := rbLoadDisk(built)
 		if len(problems) != 0 {
 			t.Fatalf("closed segments do not record the fed timeline: %v\nspec: %s", problems, spec)
@@ -445,7 +449,8 @@ func TestVerifC27Crash(t *testing.T) {
 			tickTol = 2
 		}
 
-		srv := rbNewServer(built.PathConfs())
+		srv := rbNewServer(t, built.PathConfs())
+		defer srv.Close()
 
 		listTol := tol
 		if ragged {
@@ -456,7 +461,7 @@ func TestVerifC27Crash(t *testing.T) {
 		}
 		for si := range disk {
 			if len(disk[si].Segs) < 2 {
-				t.Fatalf("generator: session %d has %d segments, wanted >= 2\nspec: %s", si, len(disk[si].Segs), spec)
+				rbInconclusive(t, "generator: session %d has %d segments, wanted >= 2\nspec: %s", si, len(disk[si].Segs), spec)
 			}
 		}
 
@@ -605,6 +610,7 @@ func TestVerifC27Crash(t *testing.T) {
 
 func c27RegressRecording(t *testing.T, audio bool) (*rbBuilt, []rbDiskSession, *Server) {
 	t.Helper()
+	rbCalibrate(t)
 	dir, err := os.MkdirTemp(os.Getenv("VERIF_WORKDIR"), "c27r-")
 	if err != nil {
 		t.Fatal(err)
@@ -621,16 +627,20 @@ func c27RegressRecording(t *testing.T, audio bool) (*rbBuilt, []rbDiskSession, *
 	}
 	built, err := rbBuild(dir, spec)
 	if err != nil {
-		t.Fatalf("builder: %v", err)
+		rbInconclusive(t, "builder: %v", err)
 	}
+	// the base material of these regression tests is not what they are about (TestVerifC27Crash judges the
+	// closed files): anything unexpected here only means that the pinned scenario cannot be set up
 	disk, problems := rbLoadDisk(built)
 	if len(problems) != 0 {
-		t.Fatalf("builder: %v", problems)
+		rbInconclusive(t, "builder: %v", problems)
 	}
 	if len(disk[0].Segs) != 3 {
-		t.Fatalf("builder: expected 3 segments, got %d", len(disk[0].Segs))
+		rbInconclusive(t, "builder: expected 3 segments, got %d", len(disk[0].Segs))
 	}
-	return built, disk, rbNewServer(built.PathConfs())
+	srv := rbNewServer(t, built.PathConfs())
+	t.Cleanup(srv.Close)
+	return built, disk, srv
 }
 
 // A crash between os.Create and the first write leaves an empty last segment (the recorder's OnSegmentCreate callback
@@ -668,7 +678,7 @@ func TestVerifC27RegressTornTail(t *testing.T) {
 	built, disk, srv := c27RegressRecording(t, false)
 	v := &c27Victim{Sess: 0, Seg: 2, Data: disk[0].Segs[2].Data, Info: disk[0].Segs[2].Info}
 	if len(v.Info.Parts) < 2 {
-		t.Fatalf("builder: last segment has %d parts", len(v.Info.Parts))
+		rbInconclusive(t, "builder: last segment has %d parts", len(v.Info.Parts))
 	}
 	off := v.Info.Parts[1].MoofEnd + 10
 	if err := os.WriteFile(disk[0].Segs[2].Path, c27Render(v, c27State{Off: off, Dur0: true}), 0o644); err != nil {
@@ -706,7 +716,7 @@ func TestVerifC27RegressTimescaleZero(t *testing.T) {
 	}
 	rendered := c27Render(v, c27State{Off: moov + 8, Dur0: true, ZeroFill: true})
 	if !rbWouldDivideByZero(rendered) {
-		t.Fatalf("harness: state not in the expected class")
+		rbInconclusive(t, "harness: state not in the expected class")
 	}
 	if err := os.WriteFile(disk[0].Segs[2].Path, rendered, 0o644); err != nil {
 		t.Fatal(err)
@@ -734,17 +744,18 @@ func TestVerifC27RegressFirstKeyframeDiscarded(t *testing.T) {
 		t.Fatal(err)
 	}
 	defer os.RemoveAll(dir)
+	rbCalibrate(t)
 	spec := &rbSpec{
 		Video: "av1", Audio: "opus", PartDur: 100 * time.Millisecond, SegDur: 500 * time.Millisecond,
 		Sessions: []rbSession{rbFixedSession(time.Date(2024, 3, 5, 10, 0, 0, 0, time.UTC), 50, 5, 20, 1, 700)},
 	}
 	built, err := rbBuild(dir, spec)
 	if err != nil {
-		t.Fatalf("builder: %v", err)
+		rbInconclusive(t, "builder: %v", err)
 	}
 	disk, _ := rbLoadDisk(built)
 	if len(disk) == 0 || len(disk[0].Tracks[0]) == 0 {
-		t.Fatalf("builder: no video on disk")
+		rbInconclusive(t, "builder: no video on disk")
 	}
 	if fv := disk[0].Tracks[0][0]; fv.NonSync {
 		t.Errorf("the recording begins with video unit %d (non-sync, t=%v); key frame unit 0 at t=0 was fed first but is not on disk",
